@@ -163,7 +163,10 @@ def main():
         cort = rng.uniform(50, 120, size=N)
         rp = dict(kind="aggregate", seed=ck.seed, system=s, N=N)
         with ck.guarded("fourier-integral", "aggregate", rp, rp):
-            ag, ta = build(N, Ecm, Jcm, dips, reorg, cort)
+            # even and odd lengths of the time axis
+            Nt_s = (600, 601, 451, 750)[s % 4]
+            rp["Nt"] = Nt_s
+            ag, ta = build(N, Ecm, Jcm, dips, reorg, cort, Nt=Nt_s)
             HH = ag.get_Hamiltonian()
             DD = ag.get_TransitionDipoleMoment()
             fp0 = (numpy.array(HH._data).copy(), numpy.array(DD._data).copy(),
@@ -181,7 +184,8 @@ def main():
             ref = reference(ag, ta, ax)
             sc = float(numpy.abs(ref).max())
             # quadrature estimate: the same reference on the dt/2 grid
-            ag2, ta2 = build(N, Ecm, Jcm, dips, reorg, cort, Nt=1199, dt=1.0)
+            ag2, ta2 = build(N, Ecm, Jcm, dips, reorg, cort,
+                             Nt=2 * Nt_s - 1, dt=1.0)
             ref2 = reference(ag2, ta2, ax)
             rich = float(numpy.abs(ref - ref2).max()) / sc
             err = float(numpy.abs(d0 - ref).max()) / sc
@@ -206,7 +210,7 @@ def main():
                     rp)
             # scaling with the square of a common dipole factor
             sfac = 1.3
-            agS, taS = build(N, Ecm, Jcm, dips, reorg, cort, scale=sfac)
+            agS, taS = build(N, Ecm, Jcm, dips, reorg, cort, scale=sfac, Nt=Nt_s)
             _, dS, _ = spectrum(agS, taS)
             e = float(numpy.abs(dS - sfac ** 2 * d0).max()) / sc
             ck.case("dipole-scaling", s, sample=dict(rp, err=e))
@@ -215,7 +219,7 @@ def main():
                              rp)
             # common rotation of all dipoles
             Q, _ = numpy.linalg.qr(rng.randn(3, 3))
-            agR, taR = build(N, Ecm, Jcm, dips.dot(Q.T), reorg, cort)
+            agR, taR = build(N, Ecm, Jcm, dips.dot(Q.T), reorg, cort, Nt=Nt_s)
             _, dR, _ = spectrum(agR, taR)
             e = float(numpy.abs(dR - d0).max()) / sc
             ck.case("rotation-invariant", s, sample=dict(rp, err=e))
@@ -224,7 +228,7 @@ def main():
                              dict(rp, err=e), rp)
             # relabelling of the molecules
             for perm in list(itertools.permutations(range(N)))[1:4]:
-                agP, taP = build(N, Ecm, Jcm, dips, reorg, cort, perm=perm)
+                agP, taP = build(N, Ecm, Jcm, dips, reorg, cort, perm=perm, Nt=Nt_s)
                 _, dP, _ = spectrum(agP, taP)
                 e = float(numpy.abs(dP - d0).max()) / sc
                 ck.case("relabelling-invariant", (s, perm), sample=dict(
@@ -233,7 +237,7 @@ def main():
                     ck.violation("relabelling-invariant", "aggregate",
                                  dict(rp, perm=list(perm), err=e), rp)
             # sum rule: integral of the raw spectrum ~ sum |d_n|^2 whatever J
-            agU, taU = build(N, Ecm, 0 * Jcm, dips, reorg, cort)
+            agU, taU = build(N, Ecm, 0 * Jcm, dips, reorg, cort, Nt=Nt_s)
             _, dU, _ = spectrum(agU, taU)
             I0, IU = float(d0.sum()), float(dU.sum())
             e = abs(I0 - IU) / abs(IU)
@@ -245,7 +249,7 @@ def main():
                     rp, coupled=I0, uncoupled=IU, err=e), rp)
             # with a supplied relaxation tensor: inputs unchanged, shape
             if N >= 2:
-                agT, taT = build(N, Ecm, Jcm, dips, reorg, cort)
+                agT, taT = build(N, Ecm, Jcm, dips, reorg, cort, Nt=Nt_s)
                 HT = agT.get_Hamiltonian()
                 axT, dT, kw = spectrum(agT, taT, tensor=True)
                 RT = kw["relaxation_tensor"]
